@@ -20,7 +20,6 @@ Driver (bounded stand-in, never counted as proof):
 run(tier, seed, stop_first=False) / replay(failing_input) are the interface used by props/C09_bounded.py.
 """
 import base64
-import hashlib
 import os
 import pickle
 import random as _pyrandom
@@ -862,6 +861,7 @@ def eval_query(acc, part, kind, table, tab_id, qi, T, types, flags, factory, cap
         if path == 'end':
             if not res:
                 acc.capped += 1
+                acc.add('capped:%s:%s' % (part, kind))
             break
         acc.evals += 1
         acc.add(part)
@@ -899,7 +899,7 @@ def irr_types(types):
 
 def part_a_task(tier, lang, tname, seed, stop_first=False, only=None):
     acc = Acc(stop_first)
-    cap, extra = (40, 40) if tier == 'quick' else (1000, 500)
+    cap, extra = (40, 40) if tier == 'quick' else (600, 400)
     rnd = _pyrandom.Random(seed * 31 + A_TABLES.index(tname))
     tab = [t for t in fixed_tables(lang) if t['name'] == tname][0]
     table = Table(tab['types'], tab['top'])
@@ -1078,15 +1078,35 @@ def replay_pickled(fi):
     return [b[0] for b in bad], bad
 
 
+def candidate_queries(to):
+    from src.analysis import type_dependency_analysis as tda
+    for _ns, candidate_nodes, type_graph in to._candidate_methods:
+        for n in candidate_nodes:
+            if isinstance(n, tda.TypeConstructorInstantiationCallNode):
+                for x in type_graph.get(n, []):
+                    try:
+                        if any(e.is_inferred() for e in type_graph[x.target]):
+                            T = n.t.get_type_variable_assignments().get(x.target.t)
+                            if T is not None and T.name not in ["Boolean", "String", "BigInteger"]:
+                                yield T
+                    except (KeyError, AttributeError):
+                        continue
+            else:
+                T = n.decl.get_type()
+                if T is not None and T.name not in ["Boolean", "String", "BigInteger"]:
+                    yield T
+
+
 def part_c_task(tier, lang, seed, verif_seed, stop_first=False):
     import copy
     acc = Acc(stop_first)
     utils, tu = M.utils, M.tu
     f = M.factories[lang]
     top = norm(f.get_any_type())
-    R = 1 if tier == 'quick' else 6            # extra random states per issued query ...
+    R = 1 if tier == 'quick' else 4            # extra random states per issued query ...
     RN = 80 if tier == 'quick' else 400        # ... for the first RN issued queries of a run (the rest: as issued only)
-    K = 3 if tier == 'quick' else 12           # mutation runs per program
+    K = 3 if tier == 'quick' else 10           # mutation runs per program
+    QN = 12 if tier == 'quick' else 60         # distinct candidate-node queries per mutated program
     rnd = _pyrandom.Random((verif_seed * 1000003 + seed) * 4 + ['kotlin', 'java', 'groovy', 'scala'].index(lang))
     depth = [0]
     callno = [0]
@@ -1096,6 +1116,7 @@ def part_c_task(tier, lang, seed, verif_seed, stop_first=False):
     def observe(kind, T, types, flags, res, path, who):
         acc.evals += 1
         acc.add('C')
+        acc.add('C:%s:%s' % (kind, who))
         table = Table(types, top)
         try:
             bad, und = judge(kind, table, T, res, flags)
@@ -1196,9 +1217,29 @@ def part_c_task(tier, lang, seed, verif_seed, stop_first=False):
                     p2 = te.result()
                 to = TypeOverwriting(p2, lang, None, {'timeout': 600})
                 to.transform()
+                if k < 2:
+                    # the mutation picks one candidate node at random: issue the query of every candidate node
+                    # (candidate list of the real mutation object, node type derived as in visit_func_decl)
+                    who[0] = 'type-overwriting (every candidate node)'
+                    seen_q = set()
+                    for T in list(candidate_queries(to)):
+                        try:
+                            nq = norm(T)
+                        except Undecided:
+                            continue
+                        if nq in seen_q or len(seen_q) >= QN:
+                            continue
+                        seen_q.add(nq)
+                        try:
+                            tu.find_irrelevant_type(T, to.types, to.bt_factory)
+                        except Exception as e:
+                            kk = 'candidate query %s: %s' % (type(e).__name__, str(e)[:50])
+                            acc.exceptions.setdefault(kk, dict(count=0, first=dict(table=tid, query=str(T))))['count'] += 1
+                    who[0] = 'type-overwriting'
             except Exception as e:
                 kk = 'mutation %s: %s' % (type(e).__name__, str(e)[:50])
                 acc.exceptions.setdefault(kk, dict(count=0, first=dict(table=tid, k=k)))['count'] += 1
+            who[0] = 'type-overwriting'
     finally:
         tu.find_subtypes = M.orig['find_subtypes']
         tu.find_irrelevant_type = M.orig['find_irrelevant_type']
@@ -1211,8 +1252,8 @@ def part_c_task(tier, lang, seed, verif_seed, stop_first=False):
 # 8. driver
 # =====================================================================================================================
 LANGS = ['kotlin', 'java', 'groovy', 'scala']
-C_SEEDS = {'quick': 2, 'thorough': 40}          # fixed generator seeds 0..n-1 per language (extended by VERIF_SEED)
-B_TABLES = {'quick': 16, 'thorough': 400}
+C_SEEDS = {'quick': 2, 'thorough': 30}          # fixed generator seeds 0..n-1 per language (extended by VERIF_SEED)
+B_TABLES = {'quick': 16, 'thorough': 300}
 
 
 def plan(tier, seed):
@@ -1240,8 +1281,43 @@ def plan(tier, seed):
     return tasks
 
 
+def oracle_crosscheck():
+    """sanity check of the oracle itself (not of the code): the relation of this file against the executable declarative
+    relation of specs/sub_ref.py (C06) on all ordered pairs of that file's universe"""
+    try:
+        from specs import sub_ref
+        u = sub_ref.build()
+    except Exception as e:          # the other reference is optional
+        return dict(skipped='%s: %s' % (type(e).__name__, e))
+    kt = u['kt']
+    tab = Table(u['simple'] + u['cons'] + [kt.Any], norm(kt.Any))
+    agree = disagree = one_sided = both_undefined = 0
+    first = None
+    for s in u['universe']:
+        for t in u['universe']:
+            try:
+                a = bool(u['sub'](u['norm'](s), u['norm'](t)))
+            except TypeError:
+                a = None
+            try:
+                b = bool(tab.sub(norm(s), norm(t)))
+            except Undecided:
+                b = None
+            if a is None and b is None:
+                both_undefined += 1
+            elif a is None or b is None:
+                one_sided += 1
+            elif a == b:
+                agree += 1
+            else:
+                disagree += 1
+                first = first or '%s <: %s: sub_ref=%s search_ref=%s' % (s, t, a, b)
+    return dict(pairs=len(u['universe']) ** 2, agree=agree, disagree=disagree, undefined_in_one=one_sided,
+                undefined_in_both=both_undefined, first_disagreement=first)
+
+
 def _task(args):
-    tier, seed, stop_first, t = args
+    tier, seed, stop_first, t = args[:4]
     t0 = time.time()
     if t[0] == 'A':
         acc = part_a_task(tier, t[1], t[2], seed, stop_first)
@@ -1249,7 +1325,7 @@ def _task(args):
         acc = part_b_task(tier, t[1], t[2], stop_first)
     else:
         acc = part_c_task(tier, t[1], t[2], seed, stop_first)
-    return dict(task=t, evals=acc.evals, undecided=acc.undecided, exceptions=acc.exceptions,
+    return dict(task=t, index=args[4] if len(args) > 4 else 0, evals=acc.evals, undecided=acc.undecided, exceptions=acc.exceptions,
                 nontrivial=sorted(acc.nontrivial, key=repr), violations=acc.violations, counts=acc.counts,
                 samples=acc.samples, capped=acc.capped, queries=acc.queries, parts=acc.parts,
                 seconds=round(time.time() - t0, 2))
@@ -1263,12 +1339,13 @@ def run(tier, seed, stop_first=False, workers=None):
     if workers is None:
         workers = int(os.environ.get('C09_WORKERS', '0')) or (6 if tier == 'quick' else 14)
     workers = max(1, min(workers, os.cpu_count() or 1))
-    jobs = [(tier, seed, stop_first, t) for t in tasks]
+    jobs = [(tier, seed, stop_first, t, i) for i, t in enumerate(tasks)]
     results = []
     # one fresh forked process per task: no state of the tree under verification leaks from one task into the next
     pool = multiprocessing.get_context('fork').Pool(workers, maxtasksperchild=1)
-    it = pool.imap(_task, jobs, chunksize=1)
-    budget = float(os.environ.get('C09_BUDGET', '0')) or (48.0 if tier == 'quick' else 780.0)
+    # stop_first: task order (deterministic first violation); otherwise completion order, merged by task index below
+    it = (pool.imap if stop_first else pool.imap_unordered)(_task, jobs, chunksize=1)
+    budget = float(os.environ.get('C09_BUDGET', '0')) or (44.0 if tier == 'quick' else 780.0)
     truncated = False
     try:
         for _ in jobs:
@@ -1284,6 +1361,7 @@ def run(tier, seed, stop_first=False, workers=None):
         if pool is not None:
             pool.terminate()
             pool.join()
+    results.sort(key=lambda r: r['index'])
     evals = sum(r['evals'] for r in results)
     nontrivial = set()
     violations, counts, exceptions, parts = {}, {}, {}, {}
@@ -1309,7 +1387,8 @@ def run(tier, seed, stop_first=False, workers=None):
     rule = (
         'contract of find_subtypes / find_irrelevant_type evaluated on the real functions against an independent declarative '
         'subtype relation (specs/search_ref.py: nominal class table keyed by class names, Kotlin/Java argument containment, '
-        'X <: T iff X = T or bound(X) <: T; primitive types related to themselves only).  '
+        'X <: T iff X = T or bound(X) <: T; the declared supertypes of built-in types are read from the language module; '
+        'primitive types are related to themselves only, a primitive type against its own boxed class is undecided).  '
         'Part A: %d hand-written class tables (7 shapes: plain hierarchy, invariant generics incl. generic subclass of an '
         'instantiation, declaration-site variance, bounded parameters incl. T2 : T1, nested arguments with in-scope type '
         'variables, arrays / function types / primitives, class declarations with interface and abstract classes) x every '
@@ -1320,8 +1399,10 @@ def run(tier, seed, stop_first=False, workers=None):
         'Part B: %d random class tables (5-8 classes, bounds, variance, generic subclasses; half fixed, half from VERIF_SEED) '
         'with random well-formed query types, 3 flag combinations each.  '
         'Part C: every find_subtypes / find_irrelevant_type call issued by the generator and by the type-overwriting mutation '
-        '(alone and after type erasure) on %d generator runs (fixed seeds x 4 languages, default configuration), each issued '
-        'query re-evaluated with further random states.  '
+        '(alone and after type erasure; incl. the subtype queries of its type-dependency analysis) on %d generator runs '
+        '(fixed seeds x 4 languages, default configuration), each issued query re-evaluated with further random states; '
+        'because the mutation picks its node at random, the irrelevant-type query of every candidate node of the real '
+        'mutation object is issued as well.  '
         'Checks: subtypes:self (T in result iff include_self), subtypes:usable (no bare generic class at top level when '
         'concrete_only, never as a nested argument, arity, arguments within declared bounds when T itself is well-formed), '
         'subtypes:sound (every element, a bare generic class taken as its instantiation with its own parameters, is below T), '
@@ -1333,12 +1414,18 @@ def run(tier, seed, stop_first=False, workers=None):
         'name) are counted as undecided, exceptions raised by the search are counted separately (C18), neither is judged.  '
         'Non-trivial: distinct (table, search, query, flags) resp. (language, seed, call) whose result contains a type other '
         'than T resp. is not None.' % (na, capped, nb, nc))
+    extra = {}
+    if tier == 'thorough' and not stop_first:
+        extra['oracle_crosscheck'] = oracle_crosscheck()
+    if truncated:
+        rule += ('  NOTE: wall-clock guard hit after %d of %d tasks (loaded machine); the counts are those of the '
+                 'completed tasks only.' % (len(results), len(jobs)))
     return dict(evaluations=evals, distinct_nontrivial=len(nontrivial), rule=rule, samples=samples,
                 violations=[violations[k] for k in sorted(violations)], violation_counts=dict(sorted(counts.items())),
                 undecided=sum(r['undecided'] for r in results), exceptions=exceptions, by_part=parts,
                 queries=sum(r['queries'] for r in results), exhaustive=False,
                 tasks=len(results), tasks_planned=len(jobs), truncated=truncated,
-                seconds=round(time.time() - t0, 1), workers=workers)
+                seconds=round(time.time() - t0, 1), workers=workers, **extra)
 
 
 def replay(fi):
